@@ -16,3 +16,9 @@ mod c24;
 mod c14;
 #[cfg(kani)]
 mod c13;
+#[cfg(kani)]
+mod c20;
+#[cfg(kani)]
+mod c27;
+#[cfg(kani)]
+mod c29;
